@@ -195,6 +195,14 @@ class XExprEvaluator(ModelVisitor):
         if self.debug:            
             print("    result: is_x=%s val=%d" % (str(self.is_x), int(self.val)))
                     
+    def visit_expr_unary(self, e):
+        # The complement of a value depends on the width of the 
+        # expression it is an operand of, which is not known here.
+        # Report 'unknown', such that the expression is left to the solver
+        e.expr.accept(self)
+        self.is_x = True
+        self.val = None
+                    
     def visit_expr_fieldref(self, e : ExprFieldRefModel):
         e.fm.accept(self)
         
